@@ -177,6 +177,10 @@ def run(check_id, tier, seed):
     order = list(range(len(shards)))
     random.Random(seed).shuffle(order)  # the seed only permutes the hand-out order of a fixed enumeration
     tasks = [(check_id, i, shards[i], tier) for i in order]
+    every = int(os.environ.get('VERIF_SHARD_EVERY', '1') or 1)
+    if every > 1:
+        # timing estimates only (tools_estimate.py): a fixed 1/every part of the shards; the run is reported as broken on purpose
+        tasks = [t for t in tasks if t[1] % every == 0]
 
     agg = dict(evaluations=0, nontrivial=0, states=0, transitions=0, traces=0, formulas=0, nviol=0)
     violations = []
@@ -227,6 +231,8 @@ def run(check_id, tier, seed):
                     % (agg['nviol'], len(digests), len(tasks)))
 
     broken = []
+    if every > 1:
+        broken.append('estimation mode: only %d of %d shards were run (VERIF_SHARD_EVERY=%d)' % (len(tasks), len(shards), every))
     if flags.get('harness_error'):
         broken.append('harness error: ' + '; '.join(c for c in caps if c.startswith('harness error'))[:3000])
     extra = {}
